@@ -134,12 +134,17 @@ class BSplineTransform(ParametricTransform, NonRigidTransform):
         # Also clears buffered vector fields, which are invalid for the new grid
         super().grid_(grid)
         if subdivide_dims:
-            new_shape = (params.shape[0],) + self.data_shape
-            new_params = U.subdivide_cubic_bspline(params, dims=subdivide_dims)
-            for dim in subdivide_dims:
-                dim = dim.tensor_dim(params.ndim)
-                new_params = new_params.narrow(dim, 1, new_shape[dim])
-            self.data_(new_params.contiguous())
+            try:
+                new_shape = (params.shape[0],) + self.data_shape
+                new_params = U.subdivide_cubic_bspline(params, dims=subdivide_dims)
+                for dim in subdivide_dims:
+                    dim = dim.tensor_dim(params.ndim)
+                    new_params = new_params.narrow(dim, 1, new_shape[dim])
+                self.data_(new_params.contiguous())
+            except Exception:
+                # Keep grid and coefficients consistent (cf. DenseVectorFieldTransform.grid_)
+                self._grid = current_grid
+                raise
         return self
 
     @staticmethod
